@@ -8,10 +8,12 @@ PLAN = dict(
          "RSA keys; cases are the product key x container (x cipher x KDF x salt size x work factor x password kind for the "
          "password-based ones); every container is decoded by every decoder that takes it, opened by an independent reference "
          "and, for negatives, offered with wrong passwords / wrong unwrapping keys / every single-byte substitution / "
-         "out-of-range scalars; distinct = distinct class keys (configuration | container / algorithm choice / key shape / "
+         "out-of-range scalars; every encrypter / options / decoder-parameter object the API lets a caller keep is also "
+         "driven through histories of 2-3 calls with different keys and passwords; distinct = distinct class keys (configuration | container / algorithm choice / key shape / "
          "password kind, for alteration sweeps: container / DER element / outcome)",
     jobs=both("c14.plain", _CFG, shards=(2, 8), floor=100)
     + both("c14.pbes", _CFG, shards=(4, 16), floor=1000)
+    + both("c14.reuse", _CFG, shards=(2, 8), floor=100)
     + both("c14.pem", _CFG, shards=(2, 8), floor=100)
     + both("c14.wrap", _CFG, shards=(2, 8), floor=50)
     + both("c14.tamper", _CFG, shards=(2, 8), floor=20)
@@ -37,6 +39,9 @@ CLAIM = dict(
          "opened by an independent reference implementation and reference-written containers by the library; wrong passwords and "
          "wrong unwrapping keys must never return a key (nor panic); every single-byte substitution of GCM-protected PKCS#8, SM2 "
          "enveloped keys and CFCA blobs must be refused inside the protected spans and may elsewhere only give the identical key; "
+         "every reusable object (pkcs.PBES1 values, PBES2 / ShangMi / scrypt option objects, pkcs8.DefaultOpts, Opts literals, "
+         "pkcs.PBES2Params, returned KDFParameters) writes or opens several containers in a row with different keys and passwords, "
+         "each container judged as if written by a fresh object and against the other passwords of its history; "
          "scalars 0, n-1 (SM2), n, n+1, all-ones, negative (SM9 INTEGER) placed in valid structures by the harness' encoder must "
          "be refused by every decoder, each next to a valid control. Exploration over the listed product, in the avx2, noaes and "
          "purego configurations, with container bytes compared across configurations.",
